@@ -72,6 +72,8 @@ def parse_log(text):
         "vccs": None,
         "vccs_remaining": None,
         "stubs": [],
+        "user_assertions": [],
+        "sat_covers": [],
     }
     lines = text.splitlines()
     i = 0
@@ -100,6 +102,13 @@ def parse_log(text):
     for b in blocks:
         st = b.get("status", "")
         is_cover = ".cover." in b["name"]
+        # assertions written in the harness files (not std's or the repository's own debug assertions) that the
+        # solver proved, and reachability witnesses that were satisfied: the distinct non-trivial obligations
+        if "verif_h" in b["name"] or "verif_top" in b["name"]:
+            if is_cover and st == "SATISFIED":
+                res["sat_covers"].append(b.get("desc", b["name"]))
+            elif not is_cover and ".assertion." in b["name"] and st == "SUCCESS":
+                res["user_assertions"].append(b.get("desc", b["name"]))
         if is_cover:
             if st != "SATISFIED":
                 res["unsat_covers"].append({"name": b["name"], "desc": b.get("desc", ""), "status": st, "loc": b.get("loc", "")})
